@@ -91,8 +91,8 @@ theorem pull_append (parse : Bool → List Byte → ParseRes) (n m : Nat) (buf p
 /-! ### `readLine` -/
 
 theorem readLineGo_append (raw esc : Bool) (buf p S : List Byte) (acc cs : List (Char × Bool))
-    (r : List Byte) (h : readLineGo raw esc buf p acc = (cs, .found, r)) :
-    readLineGo raw esc buf (p ++ S) acc = (cs, .found, r ++ S) := by
+    (r : List Byte) (h : readLineGo d raw esc buf p acc = (cs, .found, r)) :
+    readLineGo d raw esc buf (p ++ S) acc = (cs, .found, r ++ S) := by
   induction p generalizing esc buf acc with
   | nil => by_cases hb : buf = [] <;> simp [readLineGo, hb] at h
   | cons b rest ih =>
@@ -110,7 +110,7 @@ theorem readLineGo_append (raw esc : Bool) (buf p S : List Byte) (acc cs : List 
         · simp only [hc, if_false] at h ⊢; exact ih _ _ _ h
       | false =>
         simp only [Bool.false_eq_true, if_false] at h ⊢
-        by_cases hc : code = 10
+        by_cases hc : code = d
         · simp only [hc, if_true] at h ⊢
           simp only [Prod.mk.injEq, true_and] at h
           simp [h.1, h.2]
@@ -120,11 +120,11 @@ theorem readLineGo_append (raw esc : Bool) (buf p S : List Byte) (acc cs : List 
           · simp only [hbs, if_false] at h ⊢; exact ih _ _ _ h
 
 theorem readLine_append (raw : Bool) (p S : List Byte) (acc cs : List (Char × Bool)) (r : List Byte)
-    (h : readLine raw p acc = (cs, .found, r)) :
-    readLine raw (p ++ S) acc = (cs, .found, r ++ S) := readLineGo_append raw false [] p S acc cs r h
+    (h : readLine d raw p acc = (cs, .found, r)) :
+    readLine d raw (p ++ S) acc = (cs, .found, r ++ S) := readLineGo_append raw false [] p S acc cs r h
 
 theorem readLineGo_suffix (raw esc : Bool) (buf p : List Byte) (acc : List (Char × Bool)) :
-    ∃ pre, pre ++ (readLineGo raw esc buf p acc).2.2 = p := by
+    ∃ pre, pre ++ (readLineGo d raw esc buf p acc).2.2 = p := by
   induction p generalizing esc buf acc with
   | nil => exact ⟨[], by simp [readLineGo]⟩
   | cons b rest ih =>
@@ -144,7 +144,7 @@ theorem readLineGo_suffix (raw esc : Bool) (buf p : List Byte) (acc : List (Char
           exact ⟨b :: pre, by simp [hp]⟩
       | false =>
         simp only [Bool.false_eq_true, if_false]
-        by_cases hc : code = 10
+        by_cases hc : code = d
         · simp only [hc, if_true]; exact ⟨[b], by simp⟩
         · simp only [hc, if_false]
           by_cases hbs : code = 92 ∧ (!raw) = true
@@ -155,6 +155,6 @@ theorem readLineGo_suffix (raw esc : Bool) (buf p : List Byte) (acc : List (Char
             exact ⟨b :: pre, by simp [hp]⟩
 
 theorem readLine_suffix (raw : Bool) (p : List Byte) (acc : List (Char × Bool)) :
-    ∃ pre, pre ++ (readLine raw p acc).2.2 = p := readLineGo_suffix raw false [] p acc
+    ∃ pre, pre ++ (readLine d raw p acc).2.2 = p := readLineGo_suffix raw false [] p acc
 
 end YashModel.Input
